@@ -75,3 +75,15 @@ def borrow(repo, res, module, from_rule, as_rule, text):
     for o in got:
         res._add(o["status"], as_rule, o["construct"], o["detail"], o["loc"])
     return got
+
+
+def in_scope(scope, mod, qual):
+    """scope: None (everything) or a list of 'module' / 'module.QualPrefix' entries naming the
+    functions a shared rule is a necessary condition for under the property that runs it"""
+    if scope is None:
+        return True
+    for e in scope:
+        m, _, q = e.partition(".")
+        if m == mod and (not q or qual == q or qual.startswith(q + ".") or qual.startswith(q)):
+            return True
+    return False
